@@ -120,3 +120,9 @@ def str_starts_minus(eng, st, s):
 def str_tail(eng, st, s):
     x = get_s(eng.as_val(st, s).t)
     return sv_str(z3.SubString(x, 1, z3.Length(x) - 1))
+
+
+@spec_function()
+def refnum(eng, st, x):
+    """the reference (allocation number) of an object: later allocations have larger numbers"""
+    return sv_int(get_ref(eng.as_val(st, x).t))
